@@ -642,6 +642,141 @@ def make_o4():
     return o4
 
 
+# ------------------------------------------------------------------ O5: the whole verify() pipeline over several plays in one process
+class _FakeVerify(object):
+    def __init__(self, valid):
+        self.valid, self.status = valid, "stand-in"
+
+    def __bool__(self):
+        return self.valid
+    __nonzero__ = __bool__
+
+
+class _FakeGPG(object):
+    """stand-in signature scheme: a signature is valid for exactly one digest (b'SIG:' + digest)"""
+
+    def __init__(self, *a, **kw):
+        pass
+
+    def import_keys(self, key):
+        return type("ImportResult", (), {"count": 1})()
+
+    def verify_data(self, sig_filename, data):
+        with open(sig_filename, "rb") as f:
+            sig = f.read()
+        return _FakeVerify(sig == b"SIG:" + bytes(data))
+
+
+class _FakeGnupg(object):
+    GPG = _FakeGPG
+
+
+def _sign(play):
+    import base64
+    cleaned = PV.exclude_dynamic_elements(play)
+    return base64.b64encode(b"SIG:" + PV.hash_play(PV.serialize_play(cleaned))).decode()
+
+
+def _digest_hex(play):
+    return PV.hash_play(PV.serialize_play(PV.exclude_dynamic_elements(play))).hex()
+
+
+def _revocation_yaml(entries, valid=True):
+    """the signed revocation document as bytes; entries = [(name, hex digest)]"""
+    def text(sig):
+        out = ["- name: revocation list", "  timestamp: 1", "  vars:", "    insights_signature_exclude: /vars/insights_signature",
+               "    insights_signature: %s" % sig, "  revoked_playbooks:" + ("" if entries else " []")]
+        for n, h in entries:
+            out += ["    - name: %s" % n, "      hash: %s" % h]
+        return ("\n".join(out) + "\n").encode()
+    doc = PV.yaml.load(text("placeholder"))[0]
+    sig = _sign(doc)
+    return text(sig if valid else sig[:-8] + "AAAAAAA=")
+
+
+VERIFY_EDITS = [("name", "change"), ("tasks.0.name", "change"), ("tasks.0.n", "type:str"), ("tasks", "reorder"), ("tasks.0", "insert"), ("vars", "insert")]
+REVOCATION_LAYOUTS = [
+    # (entries before, entries after, the names used) around the play's own digest
+    ("none", [], []), ("only", [], []), ("first-of-3", [], ["n1", "n2"]), ("last-of-3", ["n1", "n2"], []), ("middle", ["n1"], ["n2"]),
+    ("same-name-first", [], ["own", "own"]), ("same-name-last", ["own", "own"], []), ("same-name-middle", ["own"], ["own"]),
+    ("others-only", ["n1", "own"], []),
+]
+
+
+def verify_scenario(kind, a, b):
+    """-> list of violated clauses; runs the real verify() with GPG replaced by the stand-in scheme"""
+    import pkgutil
+    old = (PV.gnupg, PV.pkgutil)
+    bad = []
+    state = {"revocation": _revocation_yaml([])}
+
+    class _Pkgutil(object):
+        @staticmethod
+        def get_data(package, resource):
+            if resource == "revoked_playbooks.yaml":
+                return state["revocation"]
+            return pkgutil.get_data(package, resource)
+    PV.gnupg, PV.pkgutil = _FakeGnupg, _Pkgutil
+
+    def outcome(play):
+        try:
+            PV.verify(play)
+            return "accepted"
+        except PlaybookVerificationError:
+            return "refused"
+    try:
+        good = base_play(["play", "h", "", "x", "t1"])
+        good["vars"]["insights_signature"] = _sign(good)
+        if kind == "tamper":
+            # a validly signed play and an edited copy that re-uses its signature, verified one after the other in either order
+            edited = apply_edit(good, VERIFY_EDITS[a], "other")
+            seq = [good, edited] if b == 0 else [edited, good] if b == 1 else [good, edited, good, edited]
+            for i, p_ in enumerate(seq):
+                got, want = outcome(p_), "accepted" if p_ is good else "refused"
+                if got != want:
+                    bad.append("step %d: the %s play was %s" % (i, "signed" if p_ is good else "edited (%s)" % (VERIFY_EDITS[a],), got))
+        elif kind == "revocation":
+            name, before, after = REVOCATION_LAYOUTS[a]
+            own = _digest_hex(good)
+            other = lambda i: "ab" * 31 + "%02x" % (i + 1)  # noqa  (with a letter in it: an all-decimal digest would be read as a YAML integer)
+            entries = [(n, other(i)) for i, n in enumerate(before)]
+            if name not in ("none", "others-only"):
+                entries.append(("own", own if b == 0 else own.upper()))
+            entries += [(n, other(10 + i)) for i, n in enumerate(after)]
+            state["revocation"] = _revocation_yaml(entries)
+            got, want = outcome(good), "accepted" if name in ("none", "others-only") else "refused"
+            if got != want:
+                bad.append("revocation list %s (%s): the play was %s" % (name, [n for n, _ in entries], got))
+        else:
+            # an invalid signature on the play (a == 0) or on the revocation list (a == 1): nothing is accepted
+            if a == 0:
+                good["vars"]["insights_signature"] = _sign(apply_edit(good, VERIFY_EDITS[0], "zz"))
+            else:
+                state["revocation"] = _revocation_yaml([("n1", "cd" * 32)], valid=False)
+            got = outcome(good)
+            if got != "refused":
+                bad.append("%s carries an invalid signature and the play was %s" % ("the play" if a == 0 else "the revocation list", got))
+    finally:
+        PV.gnupg, PV.pkgutil = old
+    return bad
+
+
+def make_o5():
+    def o5(en):
+        kind = ["tamper", "revocation", "invalid"][en.choice("kind", 3)]
+        if kind == "tamper":
+            a, b = en.choice("edit", len(VERIFY_EDITS)), en.choice("order", 3)
+        elif kind == "revocation":
+            a, b = en.choice("layout", len(REVOCATION_LAYOUTS)), en.choice("spelling", 2)
+        else:
+            a, b = en.choice("which", 2), 0
+        case = lambda mv: {"verify_scenario": kind, "a": a, "b": b}  # noqa
+        en.note_sample(case)
+        bad = verify_scenario(kind, a, b)
+        en.must_hold(not bad, "exclusion-rules", case, detail=bad)
+    return o5
+
+
 def _verify_play(play):
     old = PV.execute_verification
     PV.execute_verification = lambda cleaned, sig: (True, PV.hash_play(PV.serialize_play(cleaned)))
@@ -706,6 +841,11 @@ def obligations(tier):
         Obligation("O4-hashed-bytes", make_o4(), ["digest-covers"],
                    desc="text that a normalising or lenient step would identify with other text: canonically equivalent spellings (NFC) and lone surrogates next to what surrogateescape / ignore / replace would turn them into, as a value, a task name and a key: the two plays never share a digest (text that cannot be encoded is refused); finite exploration, the codec is C code",
                    bounds={"pairs": [repr(x) for x in BYTE_PAIRS], "positions": BYTE_SLOTS}, encoded=[PV.serialize_play, PV.hash_play], budget_s=60, replay="collision", check_sample=True),
+        Obligation("O5-verify-pipeline", make_o5(), ["exclusion-rules"],
+                   desc="the real verify() / verify_play() / execute_verification() / get_play_revocation_list() with only GPG replaced by a stand-in scheme (a signature is valid for exactly one digest): several plays verified in one process (a signed play and an edited copy re-using its signature, in either order and alternating), a signed revocation document with the play's digest at every position among entries with equal or different names and either hex spelling, invalid signatures on the play or on the revocation list; finite exploration (YAML loading and the file hand-over to GPG are outside the encoding)",
+                   bounds={"edits": [list(e) for e in VERIFY_EDITS], "orders": ["signed, edited", "edited, signed", "alternating x2"], "revocation layouts": [r[0] for r in REVOCATION_LAYOUTS], "hex spelling": ["lower", "upper"]},
+                   stubs=["gnupg.GPG: import_keys succeeds, verify_data accepts exactly b'SIG:' + digest", "pkgutil.get_data('insights', 'revoked_playbooks.yaml') returns a generated signed document"],
+                   encoded=enc[5:] + [PV.execute_verification, PV.get_play_revocation_list], budget_s=120, replay="exclusion", check_sample=True),
         Obligation("O3-exclusion-rules", make_o3(), ["exclusion-rules"],
                    desc="exclusion requests built from a segment pool; missing vars / signature / exclusion list; revocation look-up",
                    bounds={"segments": SEGS, "entries": "one entry of <= 3 pool segments with leading / trailing slash variants, optionally preceded by one of /hosts, /vars/x, /tasks, /vars/missing"},
@@ -718,6 +858,8 @@ def obligations(tier):
 def _native(case):
     if "bytes_pair" in case:
         return bytes_pair(case["bytes_pair"], case["slot"])
+    if "verify_scenario" in case:
+        return verify_scenario(case["verify_scenario"], case["a"], case["b"])
     if "het" in case:
         v = het_value(case["het"], case["wrap"])
         b_ = check_text(v, SER.PlaybookSerializer.serialize(v))
